@@ -163,6 +163,18 @@ fn change_metric_case<D0: crate::Distance, ND: crate::Distance>(d: usize, item_i
         let mut rng = StdRng::seed_from_u64(0);
         w.builder(&mut rng).n_trees(1).split_after(2).build(&mut wtxn).unwrap();
     }
+    if !empty {
+        // pending changes at the time of the metric change: an addition, an overwrite and a deletion
+        let v: Vec<f32> = (0..d).map(|j| 3.0 - j as f32).collect();
+        w.add_item(&mut wtxn, 77, &v).unwrap();
+        if let Some(first) = item_ids.first() {
+            let v: Vec<f32> = (0..d).map(|j| -4.0 + j as f32).collect();
+            w.add_item(&mut wtxn, *first, &v).unwrap();
+        }
+        if item_ids.len() > 2 {
+            w.del_item(&mut wtxn, item_ids[1]).unwrap();
+        }
+    }
     let old: Vec<(u32, Vec<f32>)> = w.iter(&wtxn).unwrap().map(|r| r.unwrap()).collect();
     let others = |txn: &heed::RwTxn| -> Vec<(Vec<u8>, Vec<u8>)> {
         db.remap_types::<Bytes, Bytes>().iter(txn).unwrap().map(|r| r.unwrap())
